@@ -15,7 +15,8 @@ RULE = ("Three scenario families on a real Zeroconf in virtual time, all queries
         "independent parser. (ka) 0..300 PTR records injected 1 ms apart so that their half-TTL instants straddle the browser's "
         "start-up query instants (ages 49 %, 50 % +-1 ms, 51 %, 99 %, expired): every browser query must list exactly the non-stale "
         "cached PTRs of its type with int(remaining TTL), split over packets with TC on all but the last. (supp) two askers of the "
-        "same PTR question - two browsers in one instance started 0/998/999/1000/1001 ms apart, or a browser plus an external "
+        "same PTR question - two browsers in one instance started 0/998/999/1000/1001 ms apart (the second sometimes browsing a "
+        "second type too, so that only one of its two questions can be suppressed), or a browser plus an external "
         "QM/QU query heard while the host is (or is not) an authoritative responder for the type, with smaller/equal/larger "
         "known-answer lists - checked against a duplicate-question-suppression model (same question within 999 ms whose known "
         "answers are a subset of ours => not sent; QU never suppressed; nothing sent when everything is suppressed). (lookup) "
@@ -261,7 +262,10 @@ def run_supp(res: Result, seed: int) -> None:
     # them records this host holds too - into the same packet, as a browser of several types does
     ext_multi = authoritative and rng.random() < 0.35
     n_old = rng.choice([0, 0, 1, 2])
-    desc = {"family": "supp", "n_old": n_old, "pair": pair, "gap": gap, "n_cached": n_cached, "forced": forced, "ext_qu": ext_qu, "ext_known": ext_known, "authoritative": authoritative,
+    # the second browser may browse a second type as well (overlapping, not identical, type sets): its queries carry two
+    # questions of which only the shared one can be suppressed
+    b2_wide = pair.startswith("browser+browser") and rng.random() < 0.4
+    desc = {"family": "supp", "b2_wide": b2_wide, "n_old": n_old, "pair": pair, "gap": gap, "n_cached": n_cached, "forced": forced, "ext_qu": ext_qu, "ext_known": ext_known, "authoritative": authoritative,
             "ext_multi": ext_multi}
 
     def viol(monitor: str, kind: str, detail: str, **sig: Any) -> None:
@@ -327,7 +331,7 @@ def run_supp(res: Result, seed: int) -> None:
                         out["ext"].append((B + base_off, set(kn3)))
                 await sim.sleep_ms(gap)
                 out["starts"].append(sim.now_ms())
-                b2 = AsyncServiceBrowser(zc, T, listener=L(), delay=10000, question_type=qt)
+                b2 = AsyncServiceBrowser(zc, [T, T_OTHER] if b2_wide else T, listener=L(), delay=10000, question_type=qt)
             else:
                 # the external asker speaks around the browser's second (QM) query: B + d + 1000, d in 20..120
                 for base_off in (1070.0 - gap, 5070.0 - gap):
@@ -371,7 +375,7 @@ def run_supp(res: Result, seed: int) -> None:
                 continue
             res.mon("c13.known_answers")
             want = {i for (i, created, ttl) in snap if i[0] == "PTR" and created + 500.0 * ttl > e["t"]}
-            got = {R.ident_of_wire(r) for r in m.answers}
+            got = {i for i in (R.ident_of_wire(r) for r in m.answers) if i[1].lower() == T}
             if got != want:
                 viol("c13.known_answers", "known_answers_differ_with_other_asker", "query at +%.0f ms lists %r but the cache holds (more than half TTL left) %r" % (
                     e["t"] - out["B"], sorted(got - want, key=repr)[:2] or sorted(want - got, key=repr)[:2], len(want)),
@@ -485,7 +489,7 @@ def analyse_supp(res: Result, sim: simnet.Sim, desc: Dict[str, Any], out: Dict[s
         if w[1] != g[1]:
             viol("c13.progression", "question_type", "query at +%.0f ms QU=%s expected %s (forced %s)" % (g[0] - B, g[1], w[1], forced))
     gapb = "0" if desc["gap"] == 0 else ("<999" if desc["gap"] < 999 else ("999" if desc["gap"] == 999 else ("1000" if desc["gap"] == 1000 else ">1000")))
-    res.cls("supp", desc["pair"], "gap=" + gapb, "forced=%s" % forced, desc["ext_known"] if desc["pair"].endswith("external") else "-",
+    res.cls("supp", desc["pair"] + ("+wide" if desc.get("b2_wide") else ""), "gap=" + gapb, "forced=%s" % forced, desc["ext_known"] if desc["pair"].endswith("external") else "-",
             "auth" if desc["authoritative"] else "noauth", "extqu" if desc["ext_qu"] else "extqm", "cached=%d" % min(desc["n_cached"], 2))
 
 
